@@ -118,6 +118,10 @@ impl Bracket {
                         bracket.items.push(Atom(Char('[')));
                     }
                 }
+                // A quoted hyphen is an ordinary member, never the range operator.
+                PatternChar::Literal('-') => bracket
+                    .items
+                    .push(Atom(CollatingSymbol("-".to_string()))),
                 c => bracket.items.push(Atom(Char(c.char_value()))),
             }
             make_range(&mut bracket.items);
